@@ -69,6 +69,16 @@ def enc_specs():
                     "cipher_final": ("outinput", "r_cipher_final", I32, {2: ("n_fin", I32)}, []),
                     "cipher_cleanup": ("outinput", "r_cipher_cleanup", I32, {}, [])},
              oracles=["mac_size", "cipher_block_size"], oracle_arity={"mac_size": 1, "cipher_block_size": 1}),
+        dict(name="enc_init",
+             inputs=[M("cipher"), ("c.salt", "salt_ptr"), ("c.iv", "iv_ptr"), ("c.salt_len", "salt_len0"), ("c.iv_len", "iv_len0")],
+             calls={"m_msg_set_err": ("event", -1, [1]), "strdupf": ("ignore", 1), "log_msg": ("ignore", 0),
+                    "cipher_iv_size": ("oracle", [0]),
+                    "random_pseudo_bytes": ("outinput", "r_rnd", I32, {}, [0, 1])},
+             oracles=["cipher_iv_size"], oracle_arity={"cipher_iv_size": 1}),
+        dict(name="enc_timestamp",
+             inputs=[],
+             calls={"m_msg_set_err": ("event", -1, [1]), "strdup": ("ignore", 1), "log_msg": ("ignore", 0),
+                    "time": ("outinput", "r_time", (64, True), {0: ("now", (64, True))}, [])}),
         dict(name="enc_armor", named_free=True, malloc_cursor="armor",
              inputs=[("c.outer_len", "outer_len"), ("c.mac_len", "mac_len"), ("c.inner_len", "inner_len"), ("c.outer_mem_len", "outer_mem_len"),
                      ("c.inner_mem_len", "inner_mem_len"), ("c.outer", "outer_ptr"), ("c.mac", "mac_ptr"), ("c.inner", "inner_ptr"),
